@@ -287,6 +287,13 @@ impl World {
     self.pool.run_until_stalled();
   }
 
+  /// Let `n` ticks pass without the executor getting a chance to run at all
+  /// (nothing is polled, no waker fires): an executor that starts late.
+  pub fn skew(&mut self, n: u64) {
+    W.with(|w| w.borrow_mut().now += n);
+    self.ticks += n;
+  }
+
   /// FIFO-prompt executor: run ready tasks in ready-list order until none is
   /// left (or `cap` polls were spent). Returns false when the cap was hit.
   pub fn drain_fifo(&mut self, cap: usize) -> bool {
